@@ -197,6 +197,8 @@ def _remove_unwanted_expression_nodes(parent_node, pos, until_pos):
         if start_index is None or end_index is None:
             raise RefactoringError('Cannot extract anything from that')
         nodes = nodes[start_index:end_index + 1]
+        if not nodes:
+            raise RefactoringError('Cannot extract anything from that')
         if not is_suite_part:
             nodes[0:1] = _remove_unwanted_expression_nodes(nodes[0], pos, until_pos)
             nodes[-1:] = _remove_unwanted_expression_nodes(nodes[-1], pos, until_pos)
